@@ -27,7 +27,7 @@ ASSUMPTIONS = [
     'objects other than Memory (requests, packets) do not mutate Memory._write_requests/_read_requests',
     'user progress callbacks and link drivers raising inside the lock are outside the property\'s quantifier',
 ]
-FLOORS = {'R1': 4, 'R2': 6, 'R3': 6, 'R4': 10, 'R5': 6, 'R6': 4, 'R7': 2, 'R8': 1, 'R9': 4, 'R10': 15}
+FLOORS = {'R1': 4, 'R2': 6, 'R3': 6, 'R4': 10, 'R5': 5, 'R6': 4, 'R7': 2, 'R8': 1, 'R9': 4, 'R10': 15}
 
 
 def _const(func, node):
@@ -443,11 +443,11 @@ def deck_manager_rules(ctx):
     for hn, want in plan.items():
         h = D.method(hn)
         g = cfg_of(h)
-        own = [n for n in g.nodes if n.kind == 'if' and fact_key(norm(n.ast.test)) == fact_key('%s.id == self.id' % h.params[1])]
-        ctx.need(len(own) == 1, '%s: test of the memory id not found' % h.qualname)
+        own_key = fact_key('%s.id == self.id' % h.params[1])
+        foreign = [e for e in g.edges if (own_key[0], not own_key[1]) in {f.key() for f in e.facts()}]      # edges taken when the memory is not the manager's own
+        ctx.need(foreign, '%s: test of the memory id not found' % h.qualname)
         cl = [n for n, c in g.find(lambda q: isinstance(q, ast.Call) and norm(q.func).startswith('self._clear_') and norm(q.func)[5:] in want)]
-        false_edges = [e for e in own[0].succ if e.label and e.label[0] == 'cond' and e.label[2] is False]
-        esc = g.path_avoiding(own[0], [g.exit], avoid=cl, avoid_edges=false_edges)
+        esc = g.path_avoiding(g.entry, [g.exit], avoid=cl, avoid_edges=foreign)
         ctx.inst('R10', h, 'record-forgotten-on-every-path', bool(cl) and esc is None,
                  'every path through the handler for the manager\'s own memory must pass %s (otherwise the next request raises "operation ongoing" for ever); %s'
                  % (' / '.join(want), 'escaping path ' + g.fmt_path(esc) if esc else 'all paths pass'))
